@@ -189,10 +189,93 @@ class BVExec:
                 # noreturn assertion handlers end the path at the following 'unreachable'
                 if i.name:
                     raise Top("call of external function %s" % cal)
-        elif op in ("alloca", "load", "store", "getelementptr", "bitcast"):
-            raise Top("memory operation %s at %s (outside the integer-only fragment)" % (op, i.loc))
+        elif op == "alloca":
+            # a scalar local (union punning, a promoted-out temporary): one cell, written and read whole
+            env[i.name] = ("cell", i.name)
+            env[("mem", i.name)] = None
+        elif op == "bitcast":
+            v = self.val(i.ops[0], env)
+            if isinstance(v, tuple) and v[0] == "cell":
+                env[i.name] = v
+            elif i.ty in ("float", "i32") and isinstance(v, list) and len(v) == 32:
+                env[i.name] = v            # float <-> i32 pattern
+            elif i.ty in ("double", "i64") and isinstance(v, list) and len(v) == 64:
+                env[i.name] = v
+            else:
+                raise Top("bitcast at %s" % i.loc)
+        elif op == "getelementptr":
+            v = self.val(i.ops[0], env)
+            if isinstance(v, tuple) and v[0] == "cell" and all(o.k == "int" and o.uval == 0 for o in i.ops[1:]):
+                env[i.name] = v
+            else:
+                raise Top("address arithmetic at %s (outside the integer-only fragment)" % i.loc)
+        elif op == "store":
+            pv = self.val(i.ops[1], env)
+            v = self.val(i.ops[0], env)
+            if not (isinstance(pv, tuple) and pv[0] == "cell") or not isinstance(v, list):
+                raise Top("store at %s (outside the integer-only fragment)" % i.loc)
+            env[("mem", pv[1])] = v
+        elif op == "load":
+            pv = self.val(i.ops[0], env)
+            if not (isinstance(pv, tuple) and pv[0] == "cell"):
+                raise Top("load at %s (outside the integer-only fragment)" % i.loc)
+            cur = env.get(("mem", pv[1]))
+            want = int_bits(i.ty) or {"float": 32, "double": 64}.get(i.ty)
+            if cur is None or want is None or len(cur) != want:
+                raise Top("load at %s of a local that was not written whole with the same width" % i.loc)
+            env[i.name] = cur
+        elif op == "uitofp" and i.ty == "float":
+            env[i.name] = uitofp32(bv, self.val(i.ops[0], env))
+        elif op == "uitofp" and i.ty == "double" and len(self.val(i.ops[0], env)) <= 53:
+            env[i.name] = uitofp64_exact(bv, self.val(i.ops[0], env))
         else:
             raise Top("opcode %s" % op)
+
+
+def uitofp32(bv, x):
+    """IEEE-754 binary32 pattern of an unsigned integer (<= 32 bits) converted with round-to-nearest-even (the default
+    rounding mode; the conversion is exact below 2^24)."""
+    n = len(x)
+    B = bv.b
+    res = bv.const(0, 32)
+    higher_zero = 1
+    for p in range(n - 1, -1, -1):
+        is_msb = B.AND(x[p], higher_zero)
+        higher_zero = B.AND(higher_zero, B.NOT(x[p]))
+        exp = 127 + p
+        if p <= 23:
+            mant = bv.trunc(bv.shl(bv.zext(x, 32), 23 - p), 23)
+            pat = mant + bv.const(exp, 9)
+        else:
+            sh = p - 23
+            m = bv.trunc(bv.lshr(bv.zext(x, 32), sh), 24) + [0]       # 25 bits, leading one at bit 23
+            rem = x[:sh]
+            half = rem[sh - 1]
+            rest = 0
+            for b in rem[:sh - 1]:
+                rest = B.OR(rest, b)
+            up = B.AND(half, B.OR(rest, m[0]))
+            m2 = bv.add(m, [up] + [0] * 24)
+            carry = m2[24]
+            mant = bv.mux(carry, bv.const(0, 23), m2[:23])
+            e = bv.mux(carry, bv.const(exp + 1, 9), bv.const(exp, 9))
+            pat = mant + e
+        res = bv.mux(is_msb, pat, res)
+    return res
+
+
+def uitofp64_exact(bv, x):
+    """IEEE-754 binary64 pattern of an unsigned integer of at most 53 bits (always exact)."""
+    n = len(x)
+    B = bv.b
+    res = bv.const(0, 64)
+    higher_zero = 1
+    for p in range(n - 1, -1, -1):
+        is_msb = B.AND(x[p], higher_zero)
+        higher_zero = B.AND(higher_zero, B.NOT(x[p]))
+        mant = bv.trunc(bv.shl(bv.zext(x, 64), 52 - p), 52)
+        res = bv.mux(is_msb, mant + bv.const(1023 + p, 12), res)
+    return res
 
 
 def expr_bv(e, bv, atom, bits_hint=32):
